@@ -114,11 +114,18 @@ def base_entries(target):
     m = lambda n, p=Y: mk_config(n, "bool", prompt=p)  # noqa: E731
     ents += [
         {"k": "choice", "id": "CHD", "title": "mode", "prompt": [Y], "dep": Y, "defaults": [{"m": "MB", "c": S("IDF_TARGET_CHIPB")}],
-         "children": [m("MA"), m("MB", S("IDF_TARGET_CHIPB")), m("MC", S("UB"))]},
+         "children": [m("MA"), m("MB", S("IDF_TARGET_CHIPB")), m("MC", S("UB")), mk_config("MD", "bool", prompt=Y, dep=S("IDF_TARGET_CHIPB"))]},
         {"k": "choice", "id": "CHG", "title": "gated mode", "prompt": [S("IDF_TARGET_CHIPB")], "dep": Y, "defaults": [], "children": [m("GA"), m("GB")]},
         # two choices without a name: the first exists for one target only, the second everywhere
         {"k": "choice", "id": "<choice 1>", "title": "unnamed gated", "prompt": [Y], "dep": S("IDF_TARGET_CHIPB"), "defaults": [], "children": [m("UA"), m("UB_")]},
         {"k": "choice", "id": "<choice 2>", "title": "unnamed open", "prompt": [Y], "dep": Y, "defaults": [], "children": [m("VA"), m("VB")]},
+    ]
+    # options whose default *value* (not condition) is a choice member: one that is gated by the target inside an
+    # open choice, one of a choice that is hidden for one target, an ordinary one
+    ents += [
+        mk_config("DOC_DV1", "bool", prompt=Y, defaults=[{"v": S("MB"), "c": Y}]),
+        mk_config("DOC_DV2", "bool", prompt=Y, defaults=[{"v": S("GA"), "c": S("UB")}, {"v": S("MA"), "c": Y}]),
+        mk_config("DOC_DV3", "bool", prompt=Y, defaults=[{"v": S("MD"), "c": Y}]),  # MD: `depends on` the target
     ]
     vars_ = [
         {"n": "CHD", "kind": "choice", "cands": [NOVAL, "MC"]},
